@@ -10,7 +10,8 @@
       unknown dtype -> KeyError is part of [to_lines] (correspondence stream "nosuchprogram")
     - each atom once, in the molecule's order ........................................ lines: C08_atoms_listed_once_in_order (all 14);
       characters: C08_psi4/_xyz/_xyzplus/_qchem_text_states_the_molecule, C08_block_text_states_the_atoms (nwchem, cfour,
-      orca, madness, terachem), C08_molpro_text_states_the_atoms; gamess, mrchem, turbomole, sdf: lines only (byte-exact correspondence + Python reader)
+      orca, madness, terachem), C08_molpro_text_states_the_atoms, C08_mrchem_text_states_the_molecule, C08_gamess_text_states_the_molecule;
+      turbomole, sdf: lines only (byte-exact correspondence + Python reader)
     - under the program's spelling for real and ghost atoms ........................... C08_program_spellings (generated templates =
       hand-written table), [is_view] in the theorems above; molpro ghosts: C08_molpro_ghosts_declared,
       C08_molpro_dummy_card_lists_the_ghosts
@@ -19,7 +20,7 @@
     - printed at the requested precision .............................................. C08_printed_digits_nearest; characters: [printed]
       / [atomd_of] in the re-read theorems (sign, nearest integer, exponent -prec)
     - total charge and multiplicity in text or keywords ............................... C08_chgmult_stated (all dtypes that have a slot);
-      characters: psi4, xyz+, qchem theorems
+      characters: psi4, xyz+, qchem, mrchem theorems
     - fragment charge and multiplicity where the format has them (psi4, qchem) ........ lines: C08_fragments_stated; characters:
       C07_roundtrip_psi4 (carried_psi4), C08_qchem_text_states_the_molecule
     - an announced unit is the unit the coordinates are written in .................... C08_unit_word_is_written +
@@ -31,7 +32,7 @@ From Coq Require Import ZArith List String Ascii Bool.
 Require Import QV.Common.Outcome QV.Common.WText QV.Common.WBin64 QV.Model.WriterTypes QV.Gen.WriterTables
                QV.Model.Writers QV.Proofs.Writers
                QV.Model.Text QV.Proofs.TextRT QV.Proofs.TextLex QV.Proofs.TextRoundTrip QV.Proofs.TextRoundTripXyz QV.Proofs.WritersReread
-               QV.Proofs.WritersBlocks.
+               QV.Proofs.WritersBlocks QV.Proofs.WritersBlocks2.
 Import ListNotations.
 Open Scope Z_scope.
 
@@ -313,6 +314,63 @@ Example C08_ex_molpro :
   end.
 Proof. vm_compute. repeat split; reflexivity. Qed.
 
+(** mrchem, on the rendered CHARACTERS: the text is "Molecule {", "charge = <total charge>", "multiplicity = <multiplicity>",
+    "translate = <fix_com>", "$coords", one "label x y z" line per atom of the molecule in order (element symbol for real and
+    ghost atoms alike: mrchem has no ghost spelling; coordinates = the printed binary64 product with the unit factor), "$end",
+    "}", and a final newline.  ([block_fits]: symbols and labels are words, the name holds no newline.) *)
+Theorem C08_mrchem_text_states_the_molecule : forall cfg m text kw e,
+  wt_find (s_lower (w_dtype cfg)) wt_table = Some e -> s_lower (w_dtype cfg) = "mrchem"%string ->
+  to_string_model cfg m = Ok (text, kw) -> block_fits e cfg m ->
+  exists atoms,
+    Forall2 (is_view (af_of e cfg) (gf_of e cfg) (factor_of e cfg m)) (m_atoms m) atoms
+    /\ read_block 5 2 text = Some (mrchem_head m, map (atomd_of (w_prec cfg)) atoms, ["$end"; "}"]%string).
+Proof. exact mrchem_text_states_the_molecule. Qed.
+
+(** gamess, on the rendered CHARACTERS: " $data", the title card, the symmetry card (followed by a blank card unless the group
+    is C1), then one card per atom of the molecule, in order, that reads as five tokens: name (symbol + user label; the bare
+    symbol for a ghost), atomic number (NEGATIVE for a ghost), and the three printed coordinates (binary64 product with the unit
+    factor, at the requested precision); then " $end" and a final newline. *)
+Theorem C08_gamess_text_states_the_molecule : forall cfg m text kw e,
+  wt_find (s_lower (w_dtype cfg)) wt_table = Some e -> s_lower (w_dtype cfg) = "gamess"%string ->
+  to_string_model cfg m = Ok (text, kw) -> block_fits e cfg m ->
+  read_block_by gamess_match (if gamess_c1 m then 3 else 4)%nat 1 text
+  = Some (gamess_head m, map (gamess_of (w_prec cfg) (factor_of e cfg m)) (m_atoms m), [" $end"%string]).
+Proof. exact gamess_text_states_the_molecule. Qed.
+
+(** Non-vacuity: the example molecule (a ghost with a label, fix_com) written for mrchem and, with symmetry c2v, for gamess. *)
+Definition ex_cfg_r : wcfg :=
+  {| w_dtype := "MRChem"; w_units := None; w_afmt := None; w_gfmt := None; w_width := 12; w_prec := 4; w_conv := b64_one |}.
+Example C08_ex_mrchem :
+  match to_string_model ex_cfg_r ex_mol with
+  | Ok (text, _) =>
+      match read_block 5 2 text with
+      | Some (head, atoms, tail) => head = ["Molecule {"; "charge = -1"; "multiplicity = 1"; "translate = True"; "$coords"]
+                                    /\ map a_lbl atoms = ["O"; "H"; "H"] /\ tail = ["$end"; "}"]
+      | None => False
+      end
+  | Err _ => False
+  end.
+Proof. vm_compute. repeat split; reflexivity. Qed.
+Definition ex_cfg_g : wcfg :=
+  {| w_dtype := "gamess"; w_units := Some "Angstrom"; w_afmt := None; w_gfmt := None; w_width := 12; w_prec := 4; w_conv := b64_one |}.
+Definition ex_mol_g : molrec :=
+  {| m_units := m_units ex_mol; m_iutau := m_iutau ex_mol; m_atoms := m_atoms ex_mol; m_name := m_name ex_mol; m_seps := m_seps ex_mol;
+     m_chg := m_chg ex_mol; m_mult := m_mult ex_mol; m_fchg := m_fchg ex_mol; m_fmult := m_fmult ex_mol; m_fix_com := true;
+     m_fix_orient := false; m_fix_symm := Some " c2v "; m_conn := [] |}.
+Example C08_ex_gamess :
+  gamess_c1 ex_mol_g = false /\ gamess_c1 ex_mol = true
+  /\ match to_string_model ex_cfg_g ex_mol_g with
+     | Ok (text, _) =>
+         match read_block_by gamess_match 4 1 text with
+         | Some (head, atoms, tail) =>
+             head = [" $data"; " auto-generated by QCElemental from molecule H2O"; " c2v"; ""] /\ tail = [" $end"]
+             /\ map (fun a : gamess_atomd => let '(n, z, _, _, _) := a in (n, z)) atoms = [("O", "8"); ("H", "-1"); ("H", "1")]
+         | None => False
+         end
+     | Err _ => False
+     end.
+Proof. vm_compute. repeat split; reflexivity. Qed.
+
 Print Assumptions C08_atoms_listed_once_in_order.
 Print Assumptions C08_chgmult_stated.
 Print Assumptions C08_fragments_stated.
@@ -331,3 +389,5 @@ Print Assumptions C08_xyzplus_text_states_the_molecule.
 Print Assumptions C08_qchem_text_states_the_molecule.
 Print Assumptions C08_block_text_states_the_atoms.
 Print Assumptions C08_molpro_text_states_the_atoms.
+Print Assumptions C08_mrchem_text_states_the_molecule.
+Print Assumptions C08_gamess_text_states_the_molecule.
